@@ -85,13 +85,13 @@ Proof.
     assert (Hsl : (1 <= sl <= 8)%nat) by (destruct Hf; assumption).
     assert (Hb : buffer_tag sp (TElem id v) (wopt d sl) st =
                  (append (append st (id_bytes id)) (venc sl (N.of_nat (length (payload_of v))) ++ payload_of v), WOk)).
-    { rewrite buffer_tag_eq. cbn [tag_id is_master_tag negb]. rewrite Hty.
+    { assert (Hty2 : raw_type (TElem id v) (get_type sp id) = Some ty) by (rewrite Hty; apply raw_type_vshape, Hshape). rewrite buffer_tag_eq; raw_simpl. cbn [tag_id is_master_tag negb]. rewrite Hty2.
       assert (Hu : o_unknown (wopt d sl) = false) by (destruct d; reflexivity). rewrite Hu. cbn [andb].
       assert (Hm : is_master_ty (Some ty) = false) by (destruct ty; try reflexivity; contradiction Hnm; reflexivity). rewrite Hm. cbn [andb].
-      unfold should_validate. cbn [tag_id]. rewrite Hty.
+      unfold should_validate; raw_simpl. cbn [tag_id]. rewrite Hty2.
       assert (Hv : match ty with DMaster => negb (is_end (TElem id v)) | _ => true end = true) by (destruct ty; reflexivity). rewrite Hv.
       rewrite (validate_match sp id (w_open st) ids Hpath Hi). cbn [negb andb].
-      unfold buffer_act. rewrite Hu. cbn [tag_id]. rewrite Hty, (size_len_of_wopt d sl Hsl).
+      unfold buffer_act; raw_simpl. rewrite Hu. cbn [tag_id]. rewrite Hty2, (size_len_of_wopt d sl Hsl).
       destruct ty; try (contradiction Hnm; reflexivity); apply write_leaf; assumption. }
     destruct (write_step sp st _ _ _ Hb Hs) as [st' [Hstep [Ho [Hsc [Him [Hk Hu]]]]]].
     cbn [append set_buf w_open w_buf] in Ho, Him, Hk, Hu.
@@ -105,10 +105,10 @@ Proof.
     + (* known size: the children are held back, the header is inserted in front of them at the End *)
       pose proof (Hsz sl eq_refl) as Hf. assert (Hsl : (1 <= sl <= 8)%nat) by (destruct Hf; assumption).
       assert (Hb : buffer_tag sp (TStart id) (wopt d sl) st = (start_tag st id (wsl d sl), WOk)).
-      { rewrite buffer_tag_eq. cbn [tag_id is_master_tag negb]. rewrite Hty.
+      { rewrite buffer_tag_eq; raw_simpl. cbn [tag_id is_master_tag negb]. rewrite Hty.
         assert (Hu : o_unknown (wopt d sl) = false) by (destruct d; reflexivity). rewrite Hu. cbn [andb is_master_ty].
-        unfold should_validate. cbn [tag_id is_end negb]. rewrite Hty, Hval. cbn [negb andb].
-        unfold buffer_act. rewrite Hu. cbn [tag_id]. rewrite Hty, (size_len_of_wopt d sl Hsl). reflexivity. }
+        unfold should_validate; raw_simpl. cbn [tag_id is_end negb]. rewrite Hty, Hval. cbn [negb andb].
+        unfold buffer_act; raw_simpl. rewrite Hu. cbn [tag_id]. rewrite Hty, (size_len_of_wopt d sl Hsl). reflexivity. }
       destruct (write_step sp st _ _ _ Hb Hs) as [st1 [Hstep1 [Ho1 [Hsc1 [Him1 [Hk1 _]]]]]].
       cbn [start_tag set_open w_open w_buf] in Ho1, Him1, Hk1.
       assert (Hkn1 : has_known (w_open st1) = true) by (rewrite Ho1; reflexivity).
@@ -136,9 +136,9 @@ Proof.
       split; [intros Hkn; destruct (Hk3 Hkn) as [Hd3 _]; rewrite Hd3, Hd2, Hd1; reflexivity|exact Hu3].
     + (* unknown size: the header goes out at once *)
       assert (Hb : buffer_tag sp (TStart id) opts_unknown st = (start_unknown_size_tag st id, WOk)).
-      { rewrite buffer_tag_eq. cbn [tag_id is_master_tag negb opts_unknown o_unknown]. rewrite Hty. cbn [andb is_master_ty negb].
-        unfold should_validate. cbn [tag_id is_end negb]. rewrite Hty, Hval. cbn [negb andb].
-        unfold buffer_act. cbn [o_unknown opts_unknown]. reflexivity. }
+      { rewrite buffer_tag_eq; raw_simpl. cbn [tag_id is_master_tag negb opts_unknown o_unknown]. rewrite Hty. cbn [andb is_master_ty negb].
+        unfold should_validate; raw_simpl. cbn [tag_id is_end negb]. rewrite Hty, Hval. cbn [negb andb].
+        unfold buffer_act; raw_simpl. cbn [o_unknown opts_unknown]. reflexivity. }
       destruct (write_step sp st _ _ _ Hb Hs) as [st1 [Hstep1 [Ho1 [Hsc1 [Him1 [Hk1 Hu1]]]]]].
       cbn [start_unknown_size_tag set_open set_buf w_open w_buf] in Ho1, Him1, Hk1, Hu1.
       assert (Hkn1 : has_known (w_open st1) = has_known (w_open st)) by (rewrite Ho1; reflexivity).
@@ -227,12 +227,12 @@ Proof.
   - (* an element *)
     destruct Hc as [Hpath [ty [Hty [Hnm [Hshape [Hpl Hf]]]]]]. subst pl. cbn [full_tag].
     assert (Hsl : (1 <= sl <= 8)%nat) by (destruct Hf; assumption).
-    rewrite buffer_tag_eq. cbn [tag_id is_master_tag negb o_default o_unknown andb]. rewrite Hty.
+    assert (Hty2 : raw_type (TElem id v) (get_type sp id) = Some ty) by (rewrite Hty; apply raw_type_vshape, Hshape). rewrite buffer_tag_eq; raw_simpl. cbn [tag_id is_master_tag negb o_default o_unknown andb]. rewrite Hty2.
     assert (Hm : is_master_ty (Some ty) = false) by (destruct ty; try reflexivity; contradiction Hnm; reflexivity). rewrite Hm. cbn [andb].
-    unfold should_validate. cbn [tag_id]. rewrite Hty.
+    unfold should_validate; raw_simpl. cbn [tag_id]. rewrite Hty2.
     assert (Hv : match ty with DMaster => negb (is_end (TElem id v)) | _ => true end = true) by (destruct ty; reflexivity). rewrite Hv.
     rewrite (validate_match sp id (w_open st) ids Hpath Hi). cbn [negb andb].
-    unfold buffer_act. cbn [o_unknown o_default tag_id]. rewrite Hty.
+    unfold buffer_act; raw_simpl. cbn [o_unknown o_default tag_id]. rewrite Hty2.
     change (size_len_of o_default) with (wsl true sl).
     assert (Hw : write_element st id (Some ty) v (wsl true sl) =
                  (append (append st (id_bytes id)) (venc sl (N.of_nat (length (payload_of v))) ++ payload_of v), WOk)) by (apply write_leaf; assumption).
@@ -240,9 +240,9 @@ Proof.
   - (* a master given as Full *)
     apply wconfg_node in Hc. destruct Hc as [Hpath [Hty [Hsz Hcs]]]. apply all_known_node in Hk. destruct Hk as [Hsn Hks].
     destruct sz as [sl|]; [|contradiction Hsn; reflexivity]. pose proof (Hsz sl eq_refl) as Hf.
-    rewrite full_tag_node, buffer_tag_eq. cbn [tag_id is_master_tag negb o_default o_unknown andb]. rewrite Hty. cbn [is_master_ty andb negb].
-    unfold should_validate. cbn [tag_id is_end negb]. rewrite Hty, (validate_match sp id (w_open st) ids Hpath Hi). cbn [negb andb].
-    unfold buffer_act. cbn [o_unknown o_default tag_id]. rewrite Hty.
+    rewrite full_tag_node, buffer_tag_eq; raw_simpl. cbn [tag_id is_master_tag negb o_default o_unknown andb]. rewrite Hty. cbn [is_master_ty andb negb].
+    unfold should_validate; raw_simpl. cbn [tag_id is_end negb]. rewrite Hty, (validate_match sp id (w_open st) ids Hpath Hi). cbn [negb andb].
+    unfold buffer_act; raw_simpl. cbn [o_unknown o_default tag_id]. rewrite Hty.
     change (size_len_of o_default) with O.
     set (st1 := start_tag st id 0).
     assert (Hi1 : rev (open_ids (w_open st1)) = ids ++ [id]) by (unfold st1, start_tag, open_ids in *; cbn [set_open w_open map rev fst]; rewrite Hi; reflexivity).
@@ -295,10 +295,10 @@ Proof.
       assert (Hfl : (S (length (w_open st)) <= length (w_open st1))%nat) by (unfold st1, start_tag; cbn [set_open w_open length]; lia).
       assert (Hb : buffer_tag sp (TFull id (map full_tag cs)) (wopt d sl) st =
                    (set_buf st (w_buf st ++ enc_tree (RNode id (Some sl) cs)), WOk)).
-      { rewrite buffer_tag_eq. cbn [tag_id is_master_tag negb]. rewrite Hty.
+      { rewrite buffer_tag_eq; raw_simpl. cbn [tag_id is_master_tag negb]. rewrite Hty.
         assert (Hu : o_unknown (wopt d sl) = false) by (destruct d; reflexivity). rewrite Hu. cbn [andb is_master_ty negb].
-        unfold should_validate. cbn [tag_id is_end negb]. rewrite Hty, Hval. cbn [negb andb].
-        unfold buffer_act. rewrite Hu. cbn [tag_id]. rewrite Hty, (size_len_of_wopt d sl Hsl). fold st1.
+        unfold should_validate; raw_simpl. cbn [tag_id is_end negb]. rewrite Hty, Hval. cbn [negb andb].
+        unfold buffer_act; raw_simpl. rewrite Hu. cbn [tag_id]. rewrite Hty, (size_len_of_wopt d sl Hsl). fold st1.
         rewrite (children_full_g sp _ cs HB (ids ++ [id]) st1 Hcs Hks Hi1 Hfl).
         unfold end_tag, st1, start_tag. cbn [set_buf set_open w_open w_buf]. rewrite N.eqb_refl, app_length.
         destruct (Nat.ltb_spec (length (w_buf st) + length (enc_forest cs)) (length (w_buf st))); [lia|].
@@ -314,9 +314,9 @@ Proof.
       assert (Hfl : (S (length (w_open st)) <= length (w_open st1))%nat) by (unfold st1, start_unknown_size_tag; cbn [set_open set_buf w_open length]; lia).
       assert (Hb : buffer_tag sp (TFull id (map full_tag cs)) opts_unknown st =
                    (set_buf st (w_buf st ++ enc_tree (RNode id None cs)), WOk)).
-      { rewrite buffer_tag_eq. cbn [tag_id is_master_tag negb opts_unknown o_unknown]. rewrite Hty. cbn [andb is_master_ty negb].
-        unfold should_validate. cbn [tag_id is_end negb]. rewrite Hty, Hval. cbn [negb andb].
-        unfold buffer_act. cbn [o_unknown opts_unknown tag_id]. fold st1.
+      { rewrite buffer_tag_eq; raw_simpl. cbn [tag_id is_master_tag negb opts_unknown o_unknown]. rewrite Hty. cbn [andb is_master_ty negb].
+        unfold should_validate; raw_simpl. cbn [tag_id is_end negb]. rewrite Hty, Hval. cbn [negb andb].
+        unfold buffer_act; raw_simpl. cbn [o_unknown opts_unknown tag_id]. fold st1.
         rewrite (children_full_g sp _ cs HB (ids ++ [id]) st1 Hcs Hks Hi1 Hfl).
         unfold end_tag, st1, start_unknown_size_tag. cbn [set_buf set_open w_open w_buf]. rewrite N.eqb_refl.
         rewrite enc_tree_node. unfold set_buf, set_open. cbn [w_open w_buf w_dest w_script]. rewrite <- !app_assoc. reflexivity. }
@@ -460,10 +460,10 @@ Proof.
       destruct sz as [sl|].
       * pose proof (Hsz sl eq_refl) as Hf. assert (Hsl : (1 <= sl <= 8)%nat) by (destruct Hf; assumption).
         assert (Hb : buffer_tag sp (TStart id) (wopt d sl) st = (start_tag st id (wsl d sl), WOk)).
-        { rewrite buffer_tag_eq. cbn [tag_id is_master_tag negb]. rewrite Hty.
+        { rewrite buffer_tag_eq; raw_simpl. cbn [tag_id is_master_tag negb]. rewrite Hty.
           assert (Hu : o_unknown (wopt d sl) = false) by (destruct d; reflexivity). rewrite Hu. cbn [andb is_master_ty].
-          unfold should_validate. cbn [tag_id is_end negb]. rewrite Hty, Hval. cbn [negb andb].
-          unfold buffer_act. rewrite Hu. cbn [tag_id]. rewrite Hty, (size_len_of_wopt d sl Hsl). reflexivity. }
+          unfold should_validate; raw_simpl. cbn [tag_id is_end negb]. rewrite Hty, Hval. cbn [negb andb].
+          unfold buffer_act; raw_simpl. rewrite Hu. cbn [tag_id]. rewrite Hty, (size_len_of_wopt d sl Hsl). reflexivity. }
         cbn [node_opt].
         destruct (write_step sp st _ _ _ Hb Hs) as [st1 [Hstep1 [Ho1 [Hsc1 [Him1 [Hk1 _]]]]]].
         cbn [start_tag set_open w_open w_buf] in Ho1, Him1, Hk1.
@@ -490,9 +490,9 @@ Proof.
         { rewrite Him3, Hd2, Hd1. unfold image. rewrite enc_tree_node, <- !app_assoc. reflexivity. }
         split; [intros Hkn; destruct (Hk3 Hkn) as [Hd3 _]; rewrite Hd3, Hd2, Hd1; reflexivity|exact Hu3].
       * assert (Hb : buffer_tag sp (TStart id) opts_unknown st = (start_unknown_size_tag st id, WOk)).
-        { rewrite buffer_tag_eq. cbn [tag_id is_master_tag negb opts_unknown o_unknown]. rewrite Hty. cbn [andb is_master_ty negb].
-          unfold should_validate. cbn [tag_id is_end negb]. rewrite Hty, Hval. cbn [negb andb].
-          unfold buffer_act. cbn [o_unknown opts_unknown]. reflexivity. }
+        { rewrite buffer_tag_eq; raw_simpl. cbn [tag_id is_master_tag negb opts_unknown o_unknown]. rewrite Hty. cbn [andb is_master_ty negb].
+          unfold should_validate; raw_simpl. cbn [tag_id is_end negb]. rewrite Hty, Hval. cbn [negb andb].
+          unfold buffer_act; raw_simpl. cbn [o_unknown opts_unknown]. reflexivity. }
         cbn [node_opt].
         destruct (write_step sp st _ _ _ Hb Hs) as [st1 [Hstep1 [Ho1 [Hsc1 [Him1 [Hk1 Hu1]]]]]].
         cbn [start_unknown_size_tag set_open set_buf w_open w_buf] in Ho1, Him1, Hk1, Hu1.
